@@ -30,9 +30,9 @@ type model struct {
 }
 
 const (
-	stInFlight = 1
+	stInFlight  = 1
 	stCommitted = 2
-	stAborted  = 3
+	stAborted   = 3
 )
 
 type viol struct{ key, what string }
